@@ -38,6 +38,27 @@ type Case struct {
 	// unbounded cells: pause between the consumers' last Acquire and the cancel, and (generic json provider) queue size
 	SettleUs int `json:"settle_us,omitempty"`
 	Queue    int `json:"ammo_queue_size,omitempty"`
+	// unbounded cells, "live" drain: the consumers never stop acquiring by themselves - the provider is cancelled (or,
+	// with BrokenTail, fails on a malformed entry after the good ones) while they are in or about to enter Acquire -
+	// and Late more consumers call Acquire only after Run has returned.
+	Live       bool `json:"live_consumers,omitempty"`
+	Late       int  `json:"late_consumers,omitempty"`
+	BrokenTail bool `json:"broken_tail,omitempty"`
+}
+
+// kinds whose file is read entry by entry while the provider runs: a malformed entry after good ones is met mid-run
+func canBreak(k string) bool {
+	return k == "uri" || k == "uripost" || k == "raw" || k == "jsonline" || k == "grpc/json" || k == "json"
+}
+
+func brokenTail(k string) string {
+	switch k {
+	case "uri":
+		return "[broken header\n"
+	case "uripost", "raw":
+		return "notanumber /x tag\n"
+	}
+	return "{\"broken\n"
 }
 
 func isHTTP(k string) bool {
@@ -64,6 +85,15 @@ func genCase(t *rapid.T) Case {
 	c.Engine = rapid.IntRange(0, 2).Draw(t, "engine") == 0
 	if c.Limit == 0 && c.Passes == 0 {
 		c.SettleUs = rapid.SampledFrom([]int{0, 300, 3000, 20000}).Draw(t, "settleUs")
+		switch rapid.SampledFrom([]string{"stop", "live", "live", "broken"}).Draw(t, "drain") {
+		case "live":
+			c.Live = true
+		case "broken":
+			c.Live, c.BrokenTail = true, canBreak(c.Kind)
+		}
+		if c.Live {
+			c.Late = rapid.IntRange(0, 3).Draw(t, "late")
+		}
 	}
 	if c.Kind == "json" {
 		c.Queue = rapid.SampledFrom([]int{0, 1, 4, 64}).Draw(t, "queue")
@@ -105,6 +135,10 @@ func buildConf(c Case) (conf map[string]any, cleanup func(), err error) {
 		return n
 	}
 	conf = map[string]any{}
+	tail := ""
+	if c.BrokenTail && canBreak(c.Kind) {
+		tail = brokenTail(c.Kind)
+	}
 	if c.Limit > 0 {
 		conf["limit"] = c.Limit
 	}
@@ -115,7 +149,7 @@ func buildConf(c Case) (conf map[string]any, cleanup func(), err error) {
 	case isHTTP(c.Kind):
 		f := simpleFile(c.Kind, c.Entries)
 		conf["type"] = ag.ProviderType(f.Format)
-		conf["file"] = write(".ammo", f.Render())
+		conf["file"] = write(".ammo", append(f.Render(), tail...))
 		if c.Preload {
 			conf["preload"] = true
 		}
@@ -127,7 +161,7 @@ func buildConf(c Case) (conf map[string]any, cleanup func(), err error) {
 			sb.WriteString("\n")
 		}
 		conf["type"] = "grpc/json"
-		conf["file"] = write(".json", []byte(sb.String()))
+		conf["file"] = write(".json", []byte(sb.String()+tail))
 	case c.Kind == "http/scenario":
 		var sb strings.Builder
 		sb.WriteString("requests:\n  - name: r\n    method: GET\n    uri: /x\nscenarios:\n")
@@ -150,7 +184,7 @@ func buildConf(c Case) (conf map[string]any, cleanup func(), err error) {
 			fmt.Fprintf(&sb, "{\"n\": %d}\n", i)
 		}
 		conf["type"] = "json"
-		conf["source"] = map[string]any{"type": "file", "path": write(".json", []byte(sb.String()))}
+		conf["source"] = map[string]any{"type": "file", "path": write(".json", []byte(sb.String()+tail))}
 		if c.Queue > 0 {
 			conf["ammo-queue-size"] = c.Queue
 		}
@@ -223,6 +257,9 @@ func check(c Case, o *vf.Obs) error {
 	}
 	// unbounded: take 3E+2, then cancel; everything must come back promptly
 	want := 3*c.Entries + 2
+	if c.Live {
+		return checkLive(c, p, want, o)
+	}
 	o.ClassIf(c.SettleUs > 0, "cancel_after_consumers_stopped")
 	o.ClassIf(c.SettleUs > 0, c.Kind+"/cancel_after_consumers_stopped")
 	res, err := provrun.DrainSettle(p, want, c.Consumers, hangDeadline, time.Duration(c.SettleUs)*time.Microsecond, nil)
@@ -237,6 +274,36 @@ func check(c Case, o *vf.Obs) error {
 	}
 	if res.RunErr != nil && res.RunErr != context.Canceled && !strings.Contains(res.RunErr.Error(), "context canceled") {
 		return fmt.Errorf("%s unbounded: Run returned %q after cancel (expected nil or the context error)", c.Kind, res.RunErr)
+	}
+	return nil
+}
+
+// checkLive: nobody stops acquiring by itself. Whatever makes Run return - the cancel that arrives while the consumers
+// are acquiring, or a malformed entry - every consumer, also one that calls Acquire only afterwards, must come to end of
+// ammo instead of staying blocked ("once ... it is cancelled a provider never keeps consumers blocked ... and returns
+// promptly"; a failed provider has stopped for good just the same).
+func checkLive(c Case, p core.Provider, want int, o *vf.Obs) error {
+	o.Class("live_consumers")
+	o.Class(c.Kind + "/live_consumers")
+	o.ClassIf(c.Late > 0, "late_consumers")
+	o.ClassIf(c.BrokenTail, "broken_tail")
+	what := fmt.Sprintf("%s (preload=%v) unbounded, %d consumers acquiring until end of ammo, cancelled after %d ammo (+%dus)", c.Kind, c.Preload, c.Consumers, want, c.SettleUs)
+	if c.BrokenTail {
+		what = fmt.Sprintf("%s (preload=%v) unbounded, file of %d entries followed by a malformed one, %d consumers acquiring until end of ammo", c.Kind, c.Preload, c.Entries, c.Consumers)
+	}
+	res, err := provrun.DrainLive(p, want, c.Consumers, c.Late, hangDeadline, time.Duration(c.SettleUs)*time.Microsecond)
+	if err != nil {
+		return fmt.Errorf("%s: %v", what, err)
+	}
+	o.ClassIf(res.SelfStopped && res.RunErr != nil, "provider_failed_with_consumers_acquiring")
+	if res.Hung != "" {
+		return fmt.Errorf("%s: %s", what, res.Hung)
+	}
+	if !res.SelfStopped && res.RunErr != nil && res.RunErr != context.Canceled && !strings.Contains(res.RunErr.Error(), "context canceled") {
+		return fmt.Errorf("%s: Run returned %q after cancel (expected nil or the context error)", what, res.RunErr)
+	}
+	if res.SelfStopped && res.RunErr == nil && !c.BrokenTail {
+		return fmt.Errorf("%s: Run returned nil by itself after %d ammo although neither limit nor passes is set", what, res.Taken)
 	}
 	return nil
 }
